@@ -120,6 +120,15 @@ CHECKS = {
                      "{1,3}, 7 heads, inputs {0.2,0.5,0.8}^d). Tolerance 1e-5*max(scale,|g|) + 4x the Richardson error estimate; unresolved "
                      "difference quotients (~1%) and jitter>0 points are counted separately; no MCMC.",
                 technique="bounded-exhaustive enumeration of a finite lattice with a numerical-differentiation oracle (no sampling)"),
+    "C18": dict(engine="enumx", category="exploration", design_ref="§2 C18",
+                text="Bounded-exhaustive: every report/noise stream over finite alphabets (17 payloads, 12 noise items, 17 reject/either "
+                     "items, 27 wall-clock patterns; <=3 reports, <=4 over 4 payloads; every placement of noise before/between/after, same "
+                     "line where unterminated) is pushed through the real Reporter -> file -> LocalBackend.stdout -> retrieve path and "
+                     "compared with an independent JSON-normal form.",
+                note="Input-space enumeration, not a protocol state graph. Says nothing about payloads, noise or clocks outside the alphabets, "
+                     "about half-written lines seen by a poll, or about other writers on the same stream. Non-decreasing time stamps are "
+                     "demanded only under a non-decreasing wall clock.",
+                technique="bounded-exhaustive enumeration (full cartesian products, no sampling) of report x noise-placement x clock-pattern cases against a reference normal form"),
 }
 
 NOT_YET = {}
